@@ -174,4 +174,43 @@ def run(ctx):
         run.instance(R3, {"entry": pp.short(fid), "effects": sorted(e)}, held=not e)
         if e:
             run.finding(Finding(R3, fid, "decoder entry reaches wallet effects %s" % sorted(e), site=db.fns[fid].loc()))
+    R4 = "C09.R4"
+    run.rule(R4, "decoded byte strings handed to a dependency's fixed-buffer deserialiser are length-checked first (RangeProof's serde visitor writes into [u8; 675] without a bound)", floor=1)
+    FIXED = {"secp256k1zkp::pedersen::RangeProof": 675}
+    n4 = 0
+    for fid, f in sorted(db.fns.items()):
+        if non_production(fid):
+            continue
+        for b, t in f.calls():
+            if t.get("f") != "serde::de::Deserialize::deserialize" or (t.get("trself") or "") not in FIXED:
+                continue
+            src = vf.producers(f, t["a"][0]) | vf.origins(f, t["a"][0])
+            if not vf.has_call(src, "serde::de::IntoDeserializer::into_deserializer"):
+                continue
+            n4 += 1
+            cap = FIXED[t["trself"]]
+            fl4 = vf.get_flow(f)
+            held = False
+            for x in cfg.comparisons(f):
+                for a, o_, swap in ((x.l, x.r, False), (x.r, x.l, True)):
+                    if not vf.has_call(fl4.of_operand(a) | vf.producers(f, a), "alloc::vec::Vec::<T, A>::len"):
+                        continue
+                    kv = vf.const_of_operand(f, o_)
+                    try:
+                        kv = int(kv)
+                    except (TypeError, ValueError):
+                        kv = cap if kv and "MAX_PROOF_SIZE" in str(kv) else None
+                    if kv is None or kv > cap:
+                        continue
+                    op = cfg._SWAP[x.op] if swap else x.op
+                    ok_edges = x.true_edges if op in ("Le", "Lt", "Eq") else (x.false_edges if op in ("Gt", "Ge", "Ne") else set())
+                    if op in ("Ge",) and kv == cap:
+                        continue  # `len >= cap` false edge means len < cap: fine, but `Ge cap` true edge would let cap through; keep simple
+                    if ok_edges and cfg.must_pass(f, ok_edges, {b})[0]:
+                        held = True
+            run.instance(R4, {"fn": pp.short(fid), "obligation": "len(bytes) <= %d before %s::deserialize" % (cap, t["trself"].split("::")[-1]), "site": c.site_of(f, b)}, held=held)
+            if not held:
+                run.finding(Finding(R4, fid.split("::{closure")[0], "a decoded byte string of any length is handed to %s's deserialiser, which copies it into a fixed %d byte buffer without a bound: an over-long hex string in a slate panics the decoder" % (t["trself"].split("::")[-1], cap), site=c.site_of(f, b)))
+    if n4 == 0:
+        run.error("C09.R4: no fixed-buffer deserialiser call found (anchor missing)")
     run.not_decided += ["panics inside dependencies (age, bs58, bech32, serde_json, ring, grin_core::ser): no MIR for them here", "stack depth / recursion in serde_json for deeply nested input"]
